@@ -505,7 +505,7 @@ func descFromV2(t *types.TableDescription) *TableDesc {
 	d := &TableDesc{Name: aws.ToString(t.TableName), ItemCount: aws.ToInt64(t.ItemCount), Indexes: map[string]string{}, IdxCount: map[string]int64{}}
 	d.Keys = schemaFromV2(t.KeySchema)
 	for _, g := range t.GlobalSecondaryIndexes {
-		n := aws.ToString(g.IndexName)
+		n := uniqueIndexName(d, aws.ToString(g.IndexName))
 		d.Indexes[n] = "gsi " + schemaFromV2(g.KeySchema)
 		d.IdxCount[n] = -1
 		if g.ItemCount != nil {
@@ -513,7 +513,7 @@ func descFromV2(t *types.TableDescription) *TableDesc {
 		}
 	}
 	for _, l := range t.LocalSecondaryIndexes {
-		n := aws.ToString(l.IndexName)
+		n := uniqueIndexName(d, aws.ToString(l.IndexName))
 		d.Indexes[n] = "lsi " + schemaFromV2(l.KeySchema)
 		d.IdxCount[n] = -1
 		if l.ItemCount != nil {
